@@ -523,3 +523,86 @@ def interpreter_modes(ctx, section):
                                    "normal": x, "optimised": y,
                                    "python": f"/venv/bin/python -O -m harness.oprobe {section}   # vs the same without -O (cwd /verif, VERIF_REPO set)"})
     s.finish()
+
+
+# --------------------------------------------------------------------------------------- scanned vs directly built architectures
+def _scanned_equiv_case(case):
+    """a scanned architecture (default options, or external libraries included, or a level limit) and an architecture built
+    directly from the same modules and imports answer every rule alike: rules are judged on the import relation, not on how
+    the architecture object came into being"""
+    import random as _random
+    import re as _re
+
+    from . import scan_common as sc
+    from .impl import err_kind, get_evaluable_architecture, graph_snapshot, make_graph, parse_message, rule_ops_for, run_rule_ops
+
+    tree, kw, seed = case
+    rng = _random.Random(seed)
+    out = []
+    with sc.write_project(tree) as proj:
+        try:
+            ev = get_evaluable_architecture(proj.path("proj"), proj.path("proj"), **kw)
+        except Exception as e:  # noqa: BLE001
+            return [("SCANERR", err_kind(e), "", "")]
+        nodes, imps, _ = graph_snapshot(ev)
+        nodes = sorted(nodes)
+        if len(nodes) < 3:
+            return out
+        direct = make_graph(nodes, imps)
+        for _ in range(6):
+            verb, imp, exc, anything = rng.choice(gen.SHAPES)
+            sk, ok = rng.choice("NNP"), rng.choice("NNP")
+            subs = (sk, rng.sample(nodes, rng.randint(1, 2)))
+            objs = (ok, rng.sample(nodes, rng.randint(1, 2)))
+            if rng.random() < 0.3:
+                n = rng.choice(nodes)
+                pat = rng.choice([_re.escape(n) + r"(\..*)?$", _re.escape(n.split(".")[0]) + r"\..*", ".*" + _re.escape(n.split(".")[-1]) + "$"])
+                if rng.random() < 0.5 or anything:
+                    subs = ("R", pat)
+                else:
+                    objs = ("R", pat)
+            ops = rule_ops_for(verb, imp, exc, subs, objs, anything)
+
+            def canon(r):
+                return r[0] + (":" + ";".join(parse_message(r[1])) if r[0] == "FAIL" else ":" + str(r[1]) if r[0] == "ERR" else "")
+
+            out.append((str(ops), canon(run_rule_ops(ops, ev)), canon(run_rule_ops(ops, direct)), str(kw)))
+    return out
+
+
+def scanned_equiv_stream(ctx, stream, n):
+    from . import scan_common as sc
+
+    rng = ctx.rng("scanned-equiv")
+    cases = []
+    for _ in range(n):
+        tree = sc.gen_tree(rng)
+        sc.fill_sources(rng, tree, externals=True)
+        pys = [p for p in tree if p.endswith(".py")]
+        if pys and rng.random() < 0.6:
+            tree[rng.choice(pys)] += rng.choice(["import os.path\nimport json\n", "import ext.lib.x\n", "from ab.cd import z\n"])
+        kw = {}
+        k = rng.randrange(4)
+        if k == 1:
+            kw["exclude_external_libraries"] = False
+        elif k == 2:
+            kw["level_limit"] = rng.randint(1, 2)
+        elif k == 3:
+            kw["exclude_external_libraries"] = False
+            kw["level_limit"] = rng.randint(1, 2)
+        cases.append((tree, kw, rng.randrange(1 << 30)))
+    res = pmap(_scanned_equiv_case, cases, ctx.jobs, chunk=10)
+    for (tree, kw, _), outs in zip(cases, res):
+        for ops, a, b, kws in outs:
+            stream.evaluations += 1
+            if ops == "SCANERR":
+                stream.count("scan-error")
+                continue
+            stream.count("options:" + ("+".join(sorted(kw)) or "default") + " " + a.split(":")[0])
+            stream.nontrivial.add(digest((sorted(tree), ops, kws)))
+            if a != b:
+                ctx.violations.append({"kind": "property-violation",
+                                       "what": "a rule gives different outcomes on a scanned architecture and on an architecture built directly from the same modules and imports",
+                                       "files": dict(tree), "options": kw, "rule_ops": ops, "scanned": a, "direct": b})
+                if len(ctx.violations) >= 3:
+                    return
